@@ -149,6 +149,35 @@ def observe_matches(exp, obs, to_json=None):
                     or any(ord(c) > 255 for c in item):
                 return "delivered payload differs from the acknowledged bytes"
         else:
-            if item != deliver[1]:
+            if item != deliver[1] and not json_equal_mod_now(item, deliver[1]):
                 return "delivered json payload differs from the rendering of the acknowledged messages"
     return None
+
+
+def json_equal_mod_now(a, b):
+    """two json payloads are equal up to a header timestamp that defaulted to `datetime.now()` at rendering
+    time (records.HeaderRecord declares default=datetime.now; timestamps are never compared)"""
+    import json
+    import datetime
+    try:
+        ja, jb = json.loads(a), json.loads(b)
+    except Exception:
+        return False
+
+    def close(x, y):
+        try:
+            dx = datetime.datetime.strptime(x, "%Y%m%d%H%M%S")
+            dy = datetime.datetime.strptime(y, "%Y%m%d%H%M%S")
+        except Exception:
+            return False
+        return abs((dx - dy).total_seconds()) <= 120 and abs((dx - datetime.datetime.now()).total_seconds()) <= 600
+
+    def eq(x, y, key=None):
+        if isinstance(x, dict) and isinstance(y, dict):
+            return x.keys() == y.keys() and all(eq(x[k], y[k], k) for k in x)
+        if isinstance(x, list) and isinstance(y, list):
+            return len(x) == len(y) and all(eq(p, q, key) for p, q in zip(x, y))
+        if x == y:
+            return True
+        return key == "timestamp" and isinstance(x, str) and isinstance(y, str) and close(x, y)
+    return eq(ja, jb)
